@@ -101,11 +101,14 @@ pub fn start_watchdog(limit_s: u64) {
                 }
             }
         }
-        if st != 0 && now_ms().saturating_sub(st) > limit_s * 1000 {
+        // inconclusive watchdog: `limit_s` seconds of CPU time in one case, or ten times that in wall time (a case that
+        // sleeps or deadlocks) - wall time alone would make an overloaded machine look like a hang
+        let cpu_used = process_cpu_ms().saturating_sub(CASE_START_CPU_MS.load(Ordering::SeqCst));
+        if st != 0 && (cpu_used > limit_s * 1000 || now_ms().saturating_sub(st) > limit_s * 10_000) {
             let c = CURRENT_CASE.lock().map(|g| g.clone()).unwrap_or_default();
             let msg = json!({"watchdog": true, "case": c, "limit_s": limit_s}).to_string();
             crate::capture::real_stdout(&format!("{}\n", msg));
-            eprintln!("WATCHDOG: a single case ran longer than {} s (inconclusive): {}", limit_s, c);
+            eprintln!("WATCHDOG: a single case used more than {} s of CPU time or {} s of wall time (inconclusive): {}", limit_s, limit_s * 10, c);
             std::process::exit(2);
         }
     });
